@@ -166,7 +166,30 @@ func (c *Ctx) Violate(key, what string, cas interface{}, gotest string, recheck 
 	if recheck != nil {
 		for i := 0; i < 5; i++ {
 			if !recheck() {
-				c.Abort("violation %s did not reproduce on re-execution %d: %s", key, i+1, what)
+				// The case was judged while other cases ran on other goroutines; evaluated again on its own it gives the
+				// specified result. The harness' inputs are immutable, so the code under test returned two different results
+				// for the same arguments: calls interfere with each other (shared scratch state). That breaks a property
+				// stated per call, and is reported as such, under its own key.
+				c.mu.Lock()
+				v.Key = key + "/only-under-concurrent-calls"
+				v.What = what + " [the same call evaluated alone afterwards gives the specified result: concurrent calls interfere]"
+				delete(c.viol, key)
+				if _, dup := c.viol[v.Key]; !dup {
+					c.viol[v.Key] = v
+					for i, k := range c.order {
+						if k == key {
+							c.order[i] = v.Key
+						}
+					}
+				} else {
+					for i, k := range c.order {
+						if k == key {
+							c.order = append(c.order[:i], c.order[i+1:]...)
+							break
+						}
+					}
+				}
+				c.mu.Unlock()
 				return
 			}
 		}
